@@ -95,7 +95,14 @@ class History:
                 if fp2 != fp:
                     # serialising is a pure read; it must not be the thing that changes the raw attributes
                     self.fail("toJson() changed the raw state of member %s: %s -> %s" % (m.tag, _first_diff(fp, fp2), _first_diff(fp2, fp)), op="toJson (observation)")
-                out.append(txt + " #" + fp2)
+                try:
+                    hash(m.obj)
+                except Exception:  # noqa: BLE001
+                    pass
+                fp3 = fingerprint(m.obj)
+                if fp3 != fp2:
+                    self.fail("hash() changed the raw state of member %s: %s -> %s" % (m.tag, _first_diff(fp2, fp3), _first_diff(fp3, fp2)), op="hash (observation)")
+                out.append(txt + " #" + fp3)
             except Exception as e:  # noqa: BLE001
                 out.append("<toJson raised %s>" % type(e).__name__)
         return out
